@@ -99,6 +99,10 @@ func (s *c12Session) submit(kind string, name int) *c12Handle {
 	case "login":
 		c := s.client.Login("u", "p")
 		wait = c.Wait
+	case "login-lit":
+		// the user name needs a synchronising literal, which the peer refuses
+		c := s.client.Login("a\nb", "p")
+		wait = c.Wait
 	case "select":
 		c := s.client.Select(mbox, nil)
 		wait = func() error { _, err := c.Wait(); return err }
@@ -164,7 +168,7 @@ func (s *c12Session) submit(kind string, name int) *c12Handle {
 
 func kindCoq(kind string, name int) string {
 	switch kind {
-	case "login":
+	case "login", "login-lit":
 		return "KLogin"
 	case "select":
 		return fmt.Sprintf("(KSelect %d)", name)
@@ -229,12 +233,21 @@ func runC12(h *H) {
 	imports := []string{"From GoImap.Base Require Import Bytes.", "From GoImap.Model Require Import ClientConn ClientConnCorr."}
 	corr := h.NewCorr("events", imports, "cc_mismatches", 150).Type("cc_case")
 	corrData := h.NewCorr("data", imports, "cd_mismatches", 150).Type("cd_case")
-	h.Rule("real imapclient.Client against a scripted server: batches of 1..4 pipelined commands (NOOP, STATUS, LIST, FETCH, SEARCH, EXPUNGE) answered in every/random order with OK/NO/BAD (commands whose data would be ambiguous — two LISTs, two SEARCHes, two EXPUNGEs — in submission order), each LIST/SEARCH answer preceded by 0..3 data lines with globally unique items, state-changing commands (LOGIN, SELECT of two mailboxes with their data block, UNSELECT, LOGOUT) on their own, unilateral EXISTS / EXPUNGE / FLAGS / PERMANENTFLAGS / FETCH / [CLOSED] / BYE-less noise interleaved anywhere, and finally the connection cut with commands still pending. After every step (closed by a NOOP round trip) State(), Mailbox() and the outcome of every Wait are compared with the model inside Coq and with a Go reference interpretation of the transcript (oracle: each command completes exactly once with the status of its own tagged response; a NO/BAD changes nothing else; the mailbox summary equals what the transcript implies; every LIST/SEARCH command's Collect/Wait returns exactly the data sent in answer to it; the data collected by LIST/SEARCH/EXPUNGE commands is also re-derived by the model's routing function). Non-trivial = a step delivered responses out of submission order or changed the mailbox summary; distinct by script.")
+	h.Rule("real imapclient.Client against a scripted server: batches of 1..4 pipelined commands (NOOP, STATUS, LIST, FETCH, SEARCH, EXPUNGE) answered in every/random order with OK/NO/BAD (commands whose data would be ambiguous — two LISTs, two SEARCHes, two EXPUNGEs — in submission order), each LIST/SEARCH answer preceded by 0..3 data lines with globally unique items, a LOGIN whose synchronising literal the server refuses with a tagged NO or BAD, state-changing commands (LOGIN, SELECT of two mailboxes with their data block, UNSELECT, LOGOUT) on their own, unilateral EXISTS / EXPUNGE / FLAGS / PERMANENTFLAGS / FETCH / [CLOSED] / BYE-less noise interleaved anywhere, and finally the connection cut with commands still pending. After every step (closed by a NOOP round trip) State(), Mailbox() and the outcome of every Wait are compared with the model inside Coq and with a Go reference interpretation of the transcript (oracle: each command completes exactly once with the status of its own tagged response; a NO/BAD changes nothing else; the mailbox summary equals what the transcript implies; every LIST/SEARCH command's Collect/Wait returns exactly the data sent in answer to it; the data collected by LIST/SEARCH/EXPUNGE commands is also re-derived by the model's routing function). Non-trivial = a step delivered responses out of submission order or changed the mailbox summary; distinct by script.")
 
 	runScript := func(seed int64, src string) {
 		rng := newRand(seed)
 		peer := newPeer("* OK [CAPABILITY IMAP4rev1] hi\r\n")
 		defer peer.Close()
+		var refusalMu sync.Mutex
+		refusal := ""
+		peer.OnLiteral = func(p *scriptedPeer, c *peerCmd, size int) string {
+			refusalMu.Lock()
+			defer refusalMu.Unlock()
+			r := refusal
+			refusal = ""
+			return r
+		}
 		client, _ := peer.dialClient(nil)
 		s := &c12Session{h: h, peer: peer, client: client, oStatus: map[int]int{}}
 		desc := map[string]interface{}{"script_seed": seed}
@@ -470,6 +483,29 @@ func runC12(h *H) {
 					}
 					respond(batch[pi], randStatus())
 				}
+			case r == 9 && oState == 1:
+				// LOGIN whose literal the server refuses with a tagged NO or BAD: the command fails
+				// with that status and nothing else changes
+				st := 1 + rng.Intn(2)
+				refusalMu.Lock()
+				refusal = []string{"", "NO literal refused", "BAD [TOOBIG] literal refused"}[st]
+				refusalMu.Unlock()
+				hd := s.submit("login-lit", 0)
+				ev("EvSubmit KLogin")
+				s.waitReceived(len(s.handles))
+				transcript = append(transcript, fmt.Sprintf("S: T%d %s (in answer to the literal header)", hd.tag, []string{"", "NO", "BAD"}[st]))
+				ev(fmt.Sprintf("EvTagged %d %d", hd.tag, st))
+				s.oStatus[hd.tag] = st
+				for i := 0; i < 1500; i++ {
+					hd.mu.Lock()
+					d := hd.done
+					hd.mu.Unlock()
+					if d {
+						break
+					}
+					time.Sleep(2 * time.Millisecond)
+				}
+				nontrivial = true
 			case r < 5 && oState == 1:
 				hd := s.submit("login", 0)
 				ev("EvSubmit KLogin")
